@@ -6,6 +6,7 @@ From Coq Require Import List NArith ZArith Bool String.
 Import ListNotations.
 From JR Require Import Json Json_Proofs Handle Handle_Proofs Reply_Proofs.
 From JRGen Require Extracted.
+From JR Require Skeletons.
 
 (* the protocol constants and wire names the model uses are those of /repo's source right now *)
 Theorem c09_source_facts :
@@ -115,6 +116,14 @@ Proof. exact pnum_sound. Qed.
 Theorem c09_wf_decidable : forall v, wfb v = true -> wf v.
 Proof. exact wfb_sound. Qed.
 
+(* the functions this property's model is an abstraction of still have the control / locking / shared-state skeleton the
+   model was written against (Skeletons.v, by hand; Extracted.v, regenerated from /repo) *)
+Theorem c09_code_skeletons :
+  JRGen.Extracted.effects_handleReader = JR.Skeletons.handleReader /\
+  JRGen.Extracted.effects_handle = JR.Skeletons.handle.
+Proof. repeat split; reflexivity. Qed.
+
+Print Assumptions c09_code_skeletons.
 Print Assumptions c09_source_facts.
 Print Assumptions c09_single.
 Print Assumptions c09_batch.
